@@ -98,9 +98,15 @@ fn rewrite(r: &mut Rng, forms: &mut Vec<SX>, files: &mut Vec<(String, String)>, 
             let act = get_item(forms, fi, ii);
             act.list()?;
             let name = format!("zv{n}");
-            set_item(forms, fi, ii, a(format!("${name}")));
             let ti = *ntop;
             *ntop += 1;
+            if r.chance(500) {
+                // a chain of variables: $zvNb -> $zvN -> the list
+                set_item(forms, fi, ii, a(format!("${name}b")));
+                forms.insert(ti, l(vec![a("defvar"), a(name.clone()), act, a(format!("{name}b")), a(format!("${name}"))]));
+                return Some("var-list-chain");
+            }
+            set_item(forms, fi, ii, a(format!("${name}")));
             forms.insert(ti, l(vec![a("defvar"), a(name), act]));
             Some("var-list")
         }
